@@ -46,3 +46,20 @@ Proof.
   apply andb_true_iff in H. destruct H as [H H3]. apply andb_true_iff in H. destruct H as [H1 H2].
   apply String.eqb_eq in H1. apply Bool.eqb_prop in H2. apply pairs_eqb_eq in H3. subst. reflexivity.
 Qed.
+
+(* a hand-written row and a generated row describe the same class: same type string, same document-capable paths, same override
+   flag -- except that for a class with NO document-capable path the flag is immaterial (an override that skips the walk of such a
+   class finds what the walk finds: nothing; what it returns is tied by the correspondence check of the class) *)
+Definition no_paths (r : crow) : bool := match c_paths r with [] => true | _ => false end.
+Definition row_compat (r : crow) (row : gen_row) : bool :=
+  String.eqb (c_type r) (fst row) && pairs_eqb (c_paths r) (snd (snd row)) &&
+  (Bool.eqb (is_override (c_acc r)) (fst (snd row)) || no_paths r).
+Lemma row_compat_spec r t ov paths : row_compat r (t, (ov, paths)) = true ->
+  c_type r = t /\ c_paths r = paths /\ (ov = is_override (c_acc r) \/ paths = []).
+Proof.
+  unfold row_compat. simpl. intros H. apply andb_true_iff in H. destruct H as [H H3]. apply andb_true_iff in H. destruct H as [H1 H2].
+  apply String.eqb_eq in H1. apply pairs_eqb_eq in H2. split; [exact H1|]. split; [exact H2|].
+  apply orb_true_iff in H3. destruct H3 as [H3|H3].
+  - left. apply Bool.eqb_prop in H3. symmetry. exact H3.
+  - right. rewrite <- H2. unfold no_paths in H3. destruct (c_paths r); [reflexivity|discriminate].
+Qed.
